@@ -214,6 +214,9 @@ class Folder:
                 return self.p.modules[sub]
             if modname in self.p.modules:
                 return self.global_value(self.p.modules[modname], attr)
+            if sub in ('math.inf', 'math.nan', 'math.pi', 'math.e', 'math.tau'):
+                import math as _math
+                return getattr(_math, attr)
             return ExtRef(sub)
         if name in _BUILTINS:
             return _BUILTINS[name]
@@ -294,6 +297,9 @@ class Folder:
             if f is not None:
                 return FuncRef(f)
         if isinstance(base, ExtRef):
+            if base.name == 'math' and e.attr in ('inf', 'nan', 'pi', 'e', 'tau'):
+                import math as _math            # named float constants
+                return getattr(_math, e.attr)
             if base.name == 'errno' and e.attr.isupper():
                 import errno as _errno          # a table of integer constants of the platform, nothing else
                 if isinstance(getattr(_errno, e.attr, None), int):
